@@ -334,11 +334,36 @@ def duplicate_links(R, P):
     if not R.require(len(cand) == 1, "cJSON_Duplicate: child loop not found"):
         return
     h, body = cand[0]
+    # roles: the copy = the variable that receives the recursive call's result; the tail = the variable through which the
+    # copy is linked (`tail->next = copy`); advancing = `tail = copy`
+    copyv, tailv = set(), set()
+    for e_ in f.all_events():
+        if e_.kind == "decl":
+            for v in e_.node["vars"]:
+                i_ = RU.uncast(f, v["init"]) if v.get("init") is not None else None
+                if i_ is not None and i_["k"] == "call" and i_.get("callee") == f.name:
+                    copyv.add(v["n"])
+    for b in f.blocks.values():
+        for el in b.elems:
+            if el["k"] == "bin" and el["op"] == "=":
+                l_, r_ = f.d(el["a"][0]), RU.uncast(f, el["a"][1])
+                if l_ is not None and l_["k"] == "var" and r_ is not None and r_["k"] == "call" and r_.get("callee") == f.name:
+                    copyv.add(l_["n"])
+    for b in body:
+        for el in f.blocks[b].elems:
+            if el["k"] == "bin" and el["op"] == "=":
+                l_, r_ = f.d(el["a"][0]), RU.uncast(f, el["a"][1])
+                if l_ is not None and l_["k"] == "member" and l_["f"] == "next" and r_ is not None and r_["k"] == "var" and r_["n"] in copyv:
+                    bs = RU.uncast(f, l_["a"][0])
+                    if bs is not None and bs["k"] == "var":
+                        tailv.add(bs["n"])
     adv = set()
     for b in body:
         for el in f.blocks[b].elems:
-            if el["k"] == "bin" and el["op"] == "=" and f.show(f.d(el["a"][0])) == "next" and f.show(RU.uncast(f, el["a"][1])) == "newchild":
-                adv.add(b)
+            if el["k"] == "bin" and el["op"] == "=":
+                l_, r_ = f.d(el["a"][0]), RU.uncast(f, el["a"][1])
+                if l_ is not None and l_["k"] == "var" and l_["n"] in tailv and r_ is not None and r_["k"] == "var" and r_["n"] in copyv:
+                    adv.add(b)
     # every path from the loop body back to the header passes a block that advances the tail
     start = [s for s, c_, p_ in edges(f, h) if s in body]
     seen, work, leak = set(), list(start), False
